@@ -37,7 +37,9 @@ MESH = {"want": ("finds",), "claim": ("mesh:find-",),
 FOREVER = 0xFFFFFF
 W = (0xFFFF, 0xFF, 0xFFFFFFFF)
 FILTERS = [(0x6001, 1, 1, 5), (0x6001, 0xFFFF, 1, 5), (0x6001, 2, 0xFF, 0xFFFFFFFF), (0x6001, 0xFFFF, 0xFF, 0xFFFFFFFF),
-           (0x6002, 1, 0xFF, 0xFFFFFFFF), (0x6002, 0xFFFF, 2, 0xFFFFFFFF), (0x6003, 7, 3, 9)]
+           (0x6002, 1, 0xFF, 0xFFFFFFFF), (0x6002, 0xFFFF, 2, 0xFFFFFFFF), (0x6003, 7, 3, 9),
+           # the remaining wildcard patterns: any major with a pinned minor, any instance with pinned major and minor
+           (0x6001, 0xFFFF, 0xFF, 5), (0x6002, 1, 0xFF, 0), (0x6001, 2, 0xFF, 6), (0x6003, 0xFFFF, 3, 8)]
 SERVICES = [(0x6001, 1, 1, 5), (0x6001, 2, 1, 5), (0x6001, 2, 2, 6), (0x6001, 3, 1, 4), (0x6002, 1, 1, 0), (0x6002, 1, 2, 0),
             (0x6003, 7, 3, 9), (0x6003, 7, 3, 8)]
 SOURCES = [("10.0.9.1", 30490), ("10.0.9.2", 30490)]
